@@ -126,6 +126,7 @@ Definition run_ev (ncall : nat) (s : rstate) (e : oev) : rstate * bool :=
         (if dedup then c else advance 4 (stp c ncall) ncall, r_cancelled s,
          match ackfor with Some x => x :: r_acked s | None => r_acked s end)
     | KCancel cid => (c, cid :: r_cancelled s, r_acked s)
+    | KBurst _ => (c, r_cancelled s, r_acked s)   (* only in block-wise layer cases (BwRun.v) *)
     end in
   let c2 := settle ncall c1 can ack in
   let fresh := firstn (length (rhist _ _ _ _ c2) - length (rhist _ _ _ _ c)) (rhist _ _ _ _ c2) in
